@@ -223,6 +223,11 @@ def run_subject(rep: Report, ctx, subj: Subject, cases, ncuts, tie: bool, tag: s
         if err or sorted(files) != sorted(subj.expected):
             rep.findings.append(Finding(f"{subj.kind}-complete-image-export-differs", {"tag": tag, "error": err, "files": sorted(files)[:10], "want": sorted(subj.expected)[:10]}))
             return
+        # the reference is what the complete image yields (the property's wording); that it equals the logical
+        # content is C01/C02/C03's business (a pair of unequal lengths is padded to the longer half there)
+        for path, wav in files.items():
+            w = E.wav_info(wav)
+            subj.expected[path] = dict(subj.expected[path], pcm=w.get("pcm", b""), channels=w.get("channels"))
         lines = []
         for cut in picked:
             whole = subj.files[subj.cut_file]
